@@ -228,6 +228,14 @@ Definition oracle_time_std (c : list (option Z) * list (option Z) * list (option
   | None => false
   end.
 
+(* str() of XmlDuration / XmlPeriod: (input text, observed str() or None when the constructor raised) *)
+(* for durations the constructor also needs CPython's float() to accept the seconds text (the regex's `.` matches any
+   character: 'PT1X2S' passes the pattern and fails in float()); float_ok is observed, as in agree_duration *)
+Definition agree_duration_str (c : str * bool * option str) : bool :=
+  let '(s, float_ok, obs) := c in
+  opt_eqb str_eqb (if float_ok then duration_str s else None) obs.
+Definition agree_period_str (c : str * option str) : bool := opt_eqb str_eqb (period_str (fst c)) (snd c).
+
 (* ---- standard-library conversions: model = implementation (Model/DatesStd.v) ---- *)
 (* observed: None = the conversion raised; Some (fields of the stdlib object with utcoffset in SECONDS,
    the value converted back) *)
